@@ -82,6 +82,15 @@ func (c Case) opSource(i int) string {
 	return litMap(c.Ops[i].Pairs, nil)
 }
 
+// describeOp is the program that describes operand i (held in variable op<i>) through every accessor.
+func (c Case) describeOp(i int) string {
+	v := fmt.Sprintf("op%d", i)
+	if c.Ops[i].IsObj {
+		return strings.ReplaceAll("[V.repr, V.S, V.keys(private?: true), V.values(private?: true), V.items(private?: true), {**V}.repr, %{**V}.repr, V.A]", "V", v)
+	}
+	return strings.ReplaceAll("[V.repr, V.S, V.keys, V.values, V.items, V.len, %{**V}.repr, V.A]", "V", v)
+}
+
 func (c Case) source() string {
 	extra := []string{}
 	for i := range c.Ops {
@@ -179,7 +188,7 @@ func judge(c *Case) (sig, detail string) {
 			if o := in.Run(fmt.Sprintf("op%d := %s", i, c.opSource(i)), interp.Opts{Env: w.env}); o.Kind != interp.Value {
 				return "", ""
 			}
-			before = append(before, w.ins(fmt.Sprintf("[op%d.repr, op%d.keys, op%d.values, op%d.items, {**op%d}.repr] if op%d.kindOf?(Obj) && !op%d.kindOf?(Map) else [op%d.repr, op%d.keys, op%d.values, op%d.len]", i, i, i, i, i, i, i, i, i, i, i)))
+			before = append(before, w.ins(c.describeOp(i)))
 		}
 	}
 	if o := in.Run("m := "+src, interp.Opts{Env: w.env}); o.Kind != interp.Value {
@@ -191,7 +200,10 @@ func judge(c *Case) (sig, detail string) {
 	}
 	// an operand describes the same pairs after it was unpacked as before
 	for i := range before {
-		after := w.ins(fmt.Sprintf("[op%d.repr, op%d.keys, op%d.values, op%d.items, {**op%d}.repr] if op%d.kindOf?(Obj) && !op%d.kindOf?(Map) else [op%d.repr, op%d.keys, op%d.values, op%d.len]", i, i, i, i, i, i, i, i, i, i, i))
+		after := w.ins(c.describeOp(i))
+		if strings.HasPrefix(after, "error ") || strings.HasPrefix(before[i], "error ") {
+			return c.Kind + ":operand-cannot-be-described", fmt.Sprintf("op%d := %s; %s gave %s / %s", i, c.opSource(i), c.describeOp(i), before[i], after)
+		}
 		if after != before[i] {
 			c.Got, c.Want = after, before[i]
 			return c.Kind + ":operand-changed-by-unpacking", fmt.Sprintf("op%d := %s; m := %s; afterwards op%d describes %s, before %s", i, c.opSource(i), src, i, after, before[i])
